@@ -27,6 +27,9 @@ import (
 
 type c16Dialer struct {
 	Addr string `json:"addr"`
+	// Name of the node.  Two entries with the same name are two dialer INSTANCES of one node (what NewControlPlane
+	// creates for a group that overrides the check options); default: a unique name per entry.
+	Name string `json:"name"`
 }
 
 type c16Group struct {
@@ -85,6 +88,13 @@ type c16Result struct {
 	Steps []c16Step `json:"steps"`
 	Keys  [][3]int  `json:"keys"` // outbound id, dom, key
 	Panic string    `json:"panic,omitempty"`
+}
+
+func c16Name(dc c16Dialer, i int) string {
+	if dc.Name != "" {
+		return dc.Name
+	}
+	return fmt.Sprintf("node%d", i)
 }
 
 func c16Type(dom int, alt bool) *dialer.NetworkType {
@@ -184,7 +194,7 @@ func (w *c16World) build() {
 	for i, dc := range w.cs.Dialers {
 		i := i
 		d := dialer.NewDialer(direct.SymmetricDirect, w.opt, dialer.InstanceOption{DisableCheck: true},
-			&dialer.Property{Property: D.Property{Name: fmt.Sprintf("node%d", i), Address: dc.Addr}})
+			&dialer.Property{Property: D.Property{Name: c16Name(dc, i), Address: dc.Addr}})
 		d.RegisterAliveTransitionCallback(func(nt *dialer.NetworkType, alive bool) {
 			if gen != w.gen {
 				return
